@@ -374,14 +374,23 @@ func (li *LockInfo) flow(f *ssa.Function) {
 }
 
 func (li *LockInfo) collect(f *ssa.Function) {
-	deferred := lockSet{}
+	// deferred unlocks, per lock: a return releases the lock only if one of them was executed on the way
+	deferredBy := map[*types.Var][]ssa.Instruction{}
 	allInstrs(f, func(in ssa.Instruction) {
 		if d, ok := in.(*ssa.Defer); ok {
 			if op, ok := lockOpOf(d); ok && !op.acquire {
-				deferred[op.f] = true
+				deferredBy[op.f] = append(deferredBy[op.f], in)
 			}
 		}
 	})
+	deferredAt := func(k *types.Var, r *ssa.Return) bool {
+		ds := deferredBy[k]
+		if len(ds) == 0 {
+			return false
+		}
+		// some path from the entry reaches r without executing any of the deferred unlocks: not released there
+		return len(f.Blocks) > 0 && !blockReachesAvoiding(f.Blocks[0], r, ds)
+	}
 	allInstrs(f, func(in ssa.Instruction) {
 		if _, isDefer := in.(*ssa.Defer); isDefer {
 			return
@@ -393,7 +402,7 @@ func (li *LockInfo) collect(f *ssa.Function) {
 		}
 		if r, ok := in.(*ssa.Return); ok {
 			for k := range li.may[r] {
-				if !deferred[k] && !li.entryMay[f][k] {
+				if !deferredAt(k, r) && !li.entryMay[f][k] {
 					li.leaks = append(li.leaks, in)
 					break
 				}
